@@ -285,10 +285,24 @@ func headerOf(hb byte, remaining int) packets.FixedHeader {
 var strPool = []string{"", "a", "b", "a/b", "t/+/x", "#", "$SYS/x", "世界", "héllo", "x y", " ", "\U0001F600",
 	"topic/with/many/levels/0123456789", "zz"}
 
+// special code points (boundaries of the UTF-8 encoding lengths, U+FFFD whose encoding EF BF BD is
+// what lenient decoders substitute for errors, the byte order mark, noncharacters, the last code
+// point before and the first after the surrogates, the extremes of the supplementary planes) ...
+var specialValid = []string{"\uFFFD", "\uFEFF", "\u0001", "\u007f", "\u0080", "\u07ff", "\u0800", "\uffff", "\ufffe",
+	"\ud7ff", "\ue000", "\U00010000", "\U0010ffff", "a\uFFFDb", "\uFFFD\uFFFD", "\u00e9\u20ac\U0001F600"}
+
+// ... and the ill-formed sequences a decoder must reject: surrogates, overlong forms, truncated
+// sequences, lone continuation bytes, code points above U+10FFFF, NUL
+var specialInvalid = []string{"\xed\xa0\x80", "\xed\xbf\xbf", "\xc0\x80", "\xc1\xbf", "\xe0\x80\x80", "\xe0\x9f\xbf",
+	"\xf0\x80\x80\x80", "\xf0\x8f\xbf\xbf", "\xc2", "\xe2\x82", "\xf0\x9f\x98", "a\xef\xbf", "\x80", "\xbf", "\xf4\x90\x80\x80",
+	"\xf5\x80\x80\x80", "\xff", "\xfe", "\x00", "a\x00b", "\xef\xbf\xbd\x00"}
+
 func genString(rng *rand.Rand, allowBad bool) string {
 	switch k := rng.Intn(40); {
-	case k < 30:
+	case k < 24:
 		return strPool[rng.Intn(len(strPool))]
+	case k < 30:
+		return specialValid[rng.Intn(len(specialValid))]
 	case k < 34:
 		n := rng.Intn(300)
 		b := make([]byte, n)
@@ -296,11 +310,70 @@ func genString(rng *rand.Rand, allowBad bool) string {
 			b[i] = byte('a' + rng.Intn(26))
 		}
 		return string(b)
-	case k < 36 && allowBad:
-		return []string{"\x00", "a\x00b", "\xff", "\xc0\x80", "\xed\xa0\x80", "\xf4\x90\x80\x80", "\xe2\x82", "a+", "#"}[rng.Intn(9)]
+	case k < 37 && allowBad:
+		return specialInvalid[rng.Intn(len(specialInvalid))]
+	case k < 38 && allowBad:
+		return []string{"a+", "#"}[rng.Intn(2)]
 	default:
 		return strPool[rng.Intn(len(strPool))]
 	}
+}
+
+// specialStringPackets: every special string in every string-typed field of the codec, one packet
+// per (string, field); v = protocol version of the non-CONNECT packets.
+func specialStringPackets(v byte, withInvalid bool) []*packets.Packet {
+	strs := append([]string{}, specialValid...)
+	if withInvalid {
+		strs = append(strs, specialInvalid...)
+	}
+	var out []*packets.Packet
+	mk := func(ty byte, f func(pk *packets.Packet)) {
+		pk := &packets.Packet{ProtocolVersion: v, FixedHeader: packets.FixedHeader{Type: ty}}
+		pk.Mods.AllowResponseInfo = true
+		switch ty {
+		case packets.Publish:
+			pk.TopicName, pk.Payload = "t", []byte("p")
+		case packets.Subscribe, packets.Unsubscribe:
+			pk.FixedHeader.Qos, pk.PacketID = 1, 3
+			pk.Filters = packets.Subscriptions{{Filter: "f", Qos: 1}}
+		case packets.Connect:
+			pk.Connect.ProtocolName = []byte("MQTT")
+			if v == 3 {
+				pk.Connect.ProtocolName = []byte("MQIsdp")
+			}
+			pk.Connect.ClientIdentifier = "c"
+		}
+		f(pk)
+		out = append(out, pk)
+	}
+	for _, s := range strs {
+		s := s
+		mk(packets.Publish, func(pk *packets.Packet) { pk.TopicName = s })
+		mk(packets.Publish, func(pk *packets.Packet) { pk.Properties.ContentType = s })
+		mk(packets.Publish, func(pk *packets.Packet) { pk.Properties.ResponseTopic = s })
+		mk(packets.Publish, func(pk *packets.Packet) { pk.Properties.User = []packets.UserProperty{{Key: s, Val: "v"}} })
+		mk(packets.Publish, func(pk *packets.Packet) { pk.Properties.User = []packets.UserProperty{{Key: "k", Val: s}} })
+		mk(packets.Subscribe, func(pk *packets.Packet) { pk.Filters[0].Filter = s })
+		mk(packets.Unsubscribe, func(pk *packets.Packet) { pk.Filters[0].Filter = s })
+		mk(packets.Connect, func(pk *packets.Packet) { pk.Connect.ClientIdentifier = s })
+		mk(packets.Connect, func(pk *packets.Packet) {
+			pk.Connect.WillFlag, pk.Connect.WillTopic, pk.Connect.WillPayload = true, s, []byte("w")
+		})
+		mk(packets.Connect, func(pk *packets.Packet) {
+			pk.Connect.WillFlag, pk.Connect.WillTopic, pk.Connect.WillPayload = true, "w", []byte("w")
+			pk.Connect.WillProperties.ContentType = s
+		})
+		mk(packets.Connect, func(pk *packets.Packet) { pk.Connect.UsernameFlag, pk.Connect.Username = true, []byte(s) })
+		mk(packets.Connect, func(pk *packets.Packet) { pk.Properties.AuthenticationMethod = s })
+		mk(packets.Connack, func(pk *packets.Packet) { pk.Properties.ReasonString = s })
+		mk(packets.Connack, func(pk *packets.Packet) { pk.Properties.AssignedClientID = s })
+		mk(packets.Connack, func(pk *packets.Packet) { pk.Properties.ResponseInfo = s })
+		mk(packets.Connack, func(pk *packets.Packet) { pk.Properties.ServerReference = s })
+		mk(packets.Puback, func(pk *packets.Packet) { pk.PacketID, pk.Properties.ReasonString = 5, s })
+		mk(packets.Disconnect, func(pk *packets.Packet) { pk.Properties.ReasonString = s })
+		mk(packets.Auth, func(pk *packets.Packet) { pk.ReasonCode, pk.Properties.AuthenticationMethod = 0x18, s })
+	}
+	return out
 }
 
 func genBytes(rng *rand.Rand) []byte {
